@@ -6,15 +6,15 @@ namespace JCodec
 open JEqG
 
 theorem encode_ne_null : ∀ (t : Ty) (v : Val), WT t v → encode t v ≠ .null
-  | .int, .int _, _ => by simp [encode]
-  | .str, .str _, _ => by simp [encode]
+  | .int _, .int _, _ => by simp [encode]
+  | .str _, .str _, _ => by simp [encode]
   | .bool, .bool _, _ => by simp [encode]
-  | .arr _ _, .arr _, _ => by simp [encode]
+  | .arr _ _ _, .arr _, _ => by simp [encode]
   | .obj _, .obj _, _ => by simp [encode]
-  | .int, .omitted, h | .int, .null, h | .int, .str _, h | .int, .bool _, h | .int, .arr _, h | .int, .obj _, h => by simp [WT] at h
-  | .str, .omitted, h | .str, .null, h | .str, .int _, h | .str, .bool _, h | .str, .arr _, h | .str, .obj _, h => by simp [WT] at h
+  | .int _, .omitted, h | .int _, .null, h | .int _, .str _, h | .int _, .bool _, h | .int _, .arr _, h | .int _, .obj _, h => by simp [WT] at h
+  | .str _, .omitted, h | .str _, .null, h | .str _, .int _, h | .str _, .bool _, h | .str _, .arr _, h | .str _, .obj _, h => by simp [WT] at h
   | .bool, .omitted, h | .bool, .null, h | .bool, .int _, h | .bool, .str _, h | .bool, .arr _, h | .bool, .obj _, h => by simp [WT] at h
-  | .arr _ _, .omitted, h | .arr _ _, .null, h | .arr _ _, .int _, h | .arr _ _, .str _, h | .arr _ _, .bool _, h | .arr _ _, .obj _, h => by simp [WT] at h
+  | .arr _ _ _, .omitted, h | .arr _ _ _, .null, h | .arr _ _ _, .int _, h | .arr _ _ _, .str _, h | .arr _ _ _, .bool _, h | .arr _ _ _, .obj _, h => by simp [WT] at h
   | .obj _, .omitted, h | .obj _, .null, h | .obj _, .int _, h | .obj _, .str _, h | .obj _, .bool _, h | .obj _, .arr _, h => by simp [WT] at h
 
 theorem findIdx_hit (pre : List Field) (n : String) (req nul : Bool) (t : Ty) (rest : List Field) (i : Nat)
@@ -60,10 +60,10 @@ theorem wfs_append (a b : List Field) : Ty.WF.WFs (a ++ b) ↔ Ty.WF.WFs a ∧ T
 mutual
 /-- **round trip**: every value of the type comes back from its own encoding -/
 theorem decode_encode : ∀ (t : Ty) (v : Val), t.WF → WT t v → decode t (encode t v) = some v
-  | .int, .int _, _, _ => by simp [encode, decode]
-  | .str, .str _, _, _ => by simp [encode, decode]
+  | .int _, .int _, _, _ => by simp [encode, decode]
+  | .str _, .str _, _, _ => by simp [encode, decode]
   | .bool, .bool _, _, _ => by simp [encode, decode]
-  | .arr nul t, .arr xs, hw, h => by
+  | .arr _ nul t, .arr xs, hw, h => by
     simp only [WT] at h
     simp only [Ty.WF] at hw
     simp [encode, decode, decodeItems_encodeItems nul t xs hw h]
@@ -73,10 +73,10 @@ theorem decode_encode : ∀ (t : Ty) (v : Val), t.WF → WT t v → decode t (en
     have := decodeMembers_encodeFields [] [] fs ms (by simpa using hw.1) hw.2 rfl h
     simp only [List.nil_append] at this
     simp [encode, decode, this, requiredOk_of_wt fs ms h]
-  | .int, .omitted, _, h | .int, .null, _, h | .int, .str _, _, h | .int, .bool _, _, h | .int, .arr _, _, h | .int, .obj _, _, h => by simp [WT] at h
-  | .str, .omitted, _, h | .str, .null, _, h | .str, .int _, _, h | .str, .bool _, _, h | .str, .arr _, _, h | .str, .obj _, _, h => by simp [WT] at h
+  | .int _, .omitted, _, h | .int _, .null, _, h | .int _, .str _, _, h | .int _, .bool _, _, h | .int _, .arr _, _, h | .int _, .obj _, _, h => by simp [WT] at h
+  | .str _, .omitted, _, h | .str _, .null, _, h | .str _, .int _, _, h | .str _, .bool _, _, h | .str _, .arr _, _, h | .str _, .obj _, _, h => by simp [WT] at h
   | .bool, .omitted, _, h | .bool, .null, _, h | .bool, .int _, _, h | .bool, .str _, _, h | .bool, .arr _, _, h | .bool, .obj _, _, h => by simp [WT] at h
-  | .arr _ _, .omitted, _, h | .arr _ _, .null, _, h | .arr _ _, .int _, _, h | .arr _ _, .str _, _, h | .arr _ _, .bool _, _, h | .arr _ _, .obj _, _, h => by simp [WT] at h
+  | .arr _ _ _, .omitted, _, h | .arr _ _ _, .null, _, h | .arr _ _ _, .int _, _, h | .arr _ _ _, .str _, _, h | .arr _ _ _, .bool _, _, h | .arr _ _ _, .obj _, _, h => by simp [WT] at h
   | .obj _, .omitted, _, h | .obj _, .null, _, h | .obj _, .int _, _, h | .obj _, .str _, _, h | .obj _, .bool _, _, h | .obj _, .arr _, _, h => by simp [WT] at h
 theorem decodeItems_encodeItems (nul : Bool) (t : Ty) : ∀ (xs : List Val), t.WF → WTItems nul t xs →
     decodeItems nul t (encodeItems t xs) = some xs
@@ -194,11 +194,11 @@ theorem decode_wt : ∀ (j : Json) (t : Ty) (v : Val), decode t j = some v → W
   | .num n, t, v, h => by cases t <;> simp [decode] at h; subst h; simp [WT]
   | .arr xs, t, v, h => by
     cases t with
-    | arr nul t =>
+    | arr _ nul t =>
       simp only [decode, Option.map_eq_some_iff] at h
       obtain ⟨vs, hvs, rfl⟩ := h
       simpa [WT] using decodeItems_wt xs nul t vs hvs
-    | int | str | bool | obj _ => simp [decode] at h
+    | int _ | str _ | bool | obj _ => simp [decode] at h
   | .obj kvs, t, v, h => by
     cases t with
     | obj fs =>
@@ -212,7 +212,7 @@ theorem decode_wt : ∀ (j : Json) (t : Ty) (v : Val), decode t j = some v → W
           exact wt_of_pwt fs st (decodeMembers_pwt kvs fs _ st (pwt_init fs) hst) hr
         · cases h
       · cases h
-    | int | str | bool | arr _ _ => simp [decode] at h
+    | int _ | str _ | bool | arr _ _ _ => simp [decode] at h
 theorem decodeItems_wt : ∀ (xs : List Json) (nul : Bool) (t : Ty) (vs : List Val), decodeItems nul t xs = some vs → WTItems nul t vs
   | [], _, _, vs, h => by simp [decodeItems] at h; subst h; simp [WTItems]
   | x :: xs, nul, t, vs, h => by
@@ -491,7 +491,7 @@ theorem accept_iff : ∀ (j : Json) (t : Ty), t.WF → UniqueKeys j → ((decode
   | .num _, t, _, _ => by cases t <;> simp [decode, Valid]
   | .arr xs, t, hw, hu => by
     cases t with
-    | arr nul t =>
+    | arr _ nul t =>
       simp only [Ty.WF] at hw
       simp only [UniqueKeys] at hu
       simp only [decode, Option.isSome_map, decodeItems_isSome, Valid]
@@ -499,14 +499,14 @@ theorem accept_iff : ∀ (j : Json) (t : Ty), t.WF → UniqueKeys j → ((decode
       constructor
       · intro h x hx; exact (slotOk_congr nul x (ih x hx)).mp ((memberOf_isSome nul x _).mp (h x hx))
       · intro h x hx; exact (memberOf_isSome nul x _).mpr ((slotOk_congr nul x (ih x hx)).mpr (h x hx))
-    | int | str | bool | obj _ => simp [decode, Valid]
+    | int _ | str _ | bool | obj _ => simp [decode, Valid]
   | .obj kvs, t, hw, hu => by
     cases t with
     | obj fs =>
       simp only [Ty.WF] at hw
       simp only [UniqueKeys] at hu
       exact accept_obj fs kvs hw.1 hw.2 hu.1 (accept_members kvs hu.2)
-    | int | str | bool | arr _ _ => simp [decode, Valid]
+    | int _ | str _ | bool | arr _ _ _ => simp [decode, Valid]
 theorem accept_items : ∀ (xs : List Json) (t : Ty), t.WF → UniqueKeysL xs → ∀ x ∈ xs, ((decode t x).isSome ↔ Valid t x)
   | [], _, _, _, _, h => by cases h
   | y :: ys, t, hw, hu, x, h => by
@@ -541,15 +541,15 @@ theorem encode_uniqueKeys : ∀ (v : Val) (t : Ty), t.WF → UniqueKeys (encode 
   | .int _, t, _ | .str _, t, _ | .bool _, t, _ => by cases t <;> simp [encode, UniqueKeys]
   | .arr xs, t, hw => by
     cases t with
-    | arr nul t => simp only [Ty.WF] at hw; simpa [encode, UniqueKeys] using encodeItems_uniqueKeys xs t hw
-    | int | str | bool | obj _ => simp [encode, UniqueKeys]
+    | arr _ nul t => simp only [Ty.WF] at hw; simpa [encode, UniqueKeys] using encodeItems_uniqueKeys xs t hw
+    | int _ | str _ | bool | obj _ => simp [encode, UniqueKeys]
   | .obj ms, t, hw => by
     cases t with
     | obj fs =>
       simp only [Ty.WF] at hw
       simp only [encode, UniqueKeys]
       exact ⟨(encodeFields_keys fs ms).nodup hw.1, encodeFields_uniqueKeys ms fs hw.2⟩
-    | int | str | bool | arr _ _ => simp [encode, UniqueKeys]
+    | int _ | str _ | bool | arr _ _ _ => simp [encode, UniqueKeys]
 theorem encodeItems_uniqueKeys : ∀ (xs : List Val) (t : Ty), t.WF → UniqueKeysL (encodeItems t xs)
   | [], _, _ => by simp [encodeItems, UniqueKeysL]
   | x :: xs, t, hw => by
@@ -574,7 +574,7 @@ theorem decode_canonical (t : Ty) (j : Json) (v : Val) (hw : t.WF) (h : decode t
     decode t (encode t v) = some v := decode_encode t v hw (decode_wt j t v h)
 
 /-! non-vacuity: a schema with every kind of member, a value in each of the three states, a refused document -/
-def exTy : Ty := .obj [("id", true, false, .int), ("tag", false, true, .str), ("xs", false, false, .arr true .int),
+def exTy : Ty := .obj [("id", true, false, .int {}), ("tag", false, true, .str {}), ("xs", false, false, .arr {} true (.int {})),
   ("in", true, true, .obj [("b", false, false, .bool)])]
 example : exTy.WF := by simp [exTy, Ty.WF, Ty.WF.WFs, names]
 example : WT exTy (.obj [.int 7, .null, .omitted, .obj [.bool true]]) := by simp [exTy, WT, WTFields, memberOk]
